@@ -23,11 +23,24 @@ def gen_model(rng, small=False):
         g.decl("p1", prefixes=["parameter"], value=num(round(rng.uniform(0.5, 4), 2)))
         g.params.append("p1")
     p = g.params[0]
+    product_only = rng.random() < 0.25
+    if product_only and len(g.params) < 2:
+        g.decl("pz", prefixes=["parameter"], value=num(round(rng.uniform(0.5, 4), 2)))
+        g.params.append("pz")
     # parameter-dependent and literal attributes
     for v in m["vars"]:
         if v["type"] == "Real" and not v["dims"] and not v["prefixes"] and rng.random() < 0.5:
             k = rng.random()
-            if k < 0.4:
+            if product_only:
+                # the only parameter-dependent attributes of this model are products of two different parameters
+                # (bilinear: affine in each parameter, not affine in the parameter vector)
+                if k < 0.6:
+                    v["attrs"][rng.choice(["max", "nominal"])] = ("bin", "*", var(g.params[0]), var(g.params[1]))
+                    tags.add("attr:product-of-two-parameters")
+                else:
+                    v["attrs"]["start"] = num(rng.randint(0, 5))
+                    tags.add("attr:literal")
+            elif k < 0.4:
                 v["attrs"]["min"] = ("neg", var(p))
                 v["attrs"]["max"] = ("bin", "+", ("bin", "*", num(2), var(p)), num(1))
                 tags.add("attr:affine-in-parameter")
